@@ -173,6 +173,10 @@ Record storage_p := {
   sp_cost_in : Q; sp_cost_out : Q; sp_cost_store : Q; sp_eff : Q; sp_inflow : Q;
   sp_price : option vec; sp_no_simult : bool; sp_max_dur : option Q }.
 
+(* what Storage.__init__ accepts (assets.py:294-295): start level <= size, end level within [0, size] *)
+Definition storage_ctor_ok (p : storage_p) : bool :=
+  Qle_bool (sp_start p) (sp_size p) && Qle_bool 0 (sp_end p) && Qle_bool (sp_end p) (sp_size p).
+
 Fixpoint tails_sum (l : vec) : vec :=       (* [sum l[i:] for i]; the recursive result is shared (one call per element) *)
   match l with [] => [] | a :: l' => let r := tails_sum l' in Qred (a + hd 0 (r ++ [0])) :: r end.
 Definition set_last (l : vec) (v : Q) : vec := match l with [] => [] | _ => removelast l ++ [v] end.
